@@ -5,14 +5,14 @@ call failing or not), it is deactivated and detached from its connection: `conne
 from pyvc.contract import fn, cls
 
 R = "engine/base.py::RootTransaction."
-cls("NestedTx", fields={"is_active": "bool"}, methods={"_cancel": "engine/base.py::NestedTransaction._cancel"})
+cls("NestedTx", fields={"is_active": "bool"}, methods={"_cancel": "engine/base.py::NestedTransaction._cancel@root"})
 cls("ConnT", fields={"_transaction": "RootTx", "_nested_transaction": "NestedTx"},
     methods={"_invalid_transaction": "engine/base.py::Connection._invalid_transaction"})
 cls("RootTx", fields={"connection": "ConnT", "is_active": "bool"},
     rep=["implies(self.is_active, self.connection._transaction is self)", "self.connection is not None"],
     methods={n: R + n for n in ["_deactivate_from_connection", "_connection_rollback_impl", "_connection_commit_impl", "_close_impl", "_do_commit"]})
 
-fn("engine/base.py::NestedTransaction._cancel", abstract=True, cls="NestedTx", params=["self"], returns="none",
+fn("engine/base.py::NestedTransaction._cancel@root", abstract=True, cls="NestedTx", params=["self"], returns="none",
    modifies=["self.is_active", "any._nested_transaction"], notes="cancels the savepoint handles; does not touch the root transaction link")
 fn(R + "_connection_rollback_impl", abstract=True, cls="RootTx", params=["self"], returns="none", modifies=[], may_raise={"BaseException": "True"},
    notes="Connection._rollback_impl: DBAPI rollback; may raise (e.g. a disconnect)")
